@@ -112,6 +112,13 @@ Proof. exact gen_idevice2_cost. Qed.
 Theorem C15_source_sdevice_cost : forall n c1 c2 c3 cap dep st e su (s p : list R), List.length s = n -> List.length p = n -> (0 < n)%nat ->
   SDevice_cost (A:=R) n c1 c2 c3 cap dep st e su s p = sdev_cost (sq_of c1 c2 c3 cap dep st e su) s p.
 Proof. exact gen_sdevice_cost. Qed.
+From DK.Gen Require Import Thermal.
+From DK.Proofs Require Import GenThermal.
+(* TDevice.cost regenerated from tdevice.py: (costv_t(r2t(s))/n + s*p).sum() is the ABC curve (a = 0, b = 2, scalar end points
+   t_optimal - t_range and t_optimal) of the temperatures, counted once, plus <s,p> *)
+Theorem C15_source_tdevice_cost : forall n su ef ti to tr te c (s p : list R), List.length s = n -> List.length p = n -> (0 < n)%nat ->
+  TDevice_cost (A:=R) n su ef ti to tr te c s p = tdev_cost (tq su ef ti to tr te c) s p.
+Proof. exact gen_tdevice_cost. Qed.
 
 (* ---- the two instances agree on the CLASS-LEVEL model (Proofs/HomLeaf.v, Proofs/HomFn.v): what the correspondence evaluates on
    exact rationals (vm_compute, compared with the implementation) maps through Q2R to what the theorems above, and those of
